@@ -30,6 +30,7 @@ MIRRORS = [('enspara/tpt/tpt.py', None), ('enspara/tpt/core.py', ['_I_m_Q', 'com
 
 TOL = 1e-9
 TIGHT = 1e-12
+REL_CAP = 1e-2     # a comparison whose rounding allowance exceeds 1 % of its scale is skipped and counted
 CONTAINERS = base.CONTAINERS
 
 
@@ -82,12 +83,29 @@ def check_case(ctx, case, resp):
     Tf = base.t_float(T)
     src, snk = case['sources'], case['sinks']
     inter = [i for i in range(n) if i not in src and i not in snk]
-    reversible = case['kind'] == 'rev'
+    reversible = case['kind'] in ('rev', 'meta-rev')
     pi = np.array([a / b for a, b in case['pi']], dtype=float)      # exact stationary vector, rounded
     q = oracle_committors(Tf, src, snk)
     f_ref = (pi * (1 - q))[:, None] * Tf * q[None, :]
     np.fill_diagonal(f_ref, 0.0)
     carries = bool(inter) and float(np.max(f_ref[inter])) > 0
+    # rounding allowances, propagated from what binary64 can deliver on a slowly mixing chain (gap = distance of the
+    # second eigenvalue from 1): committors |dq| <= 2e-15/gap (observed <= 1.6e-16/gap), computed populations
+    # relative 1e-13/gap (observed <= 3.2e-15/gap); f = pi T (1-q_i) q_j  =>  |df| <= 2 dq max(pi_i T_ij) + dpi f.
+    # All flux comparisons are RELATIVE to the flux scale fs.  Ordinary chains (gap >= 1e-2): allowance ~ 1e-9 fs.
+    fac, gap = base.cond_factor(Tf)
+    dq, dpi = 2e-15 / gap, 1e-13 / gap
+    fs = float(np.max(f_ref))
+    piT = pi[:, None] * Tf
+    np.fill_diagonal(piT, 0.0)
+    ftol = TOL * fs + 2 * dq * float(np.max(piT)) + dpi * fs
+    flux_ok = fs > 0 and ftol <= REL_CAP * fs
+    dens_ref = pi * q * (1 - q)
+    N_ref = float(dens_ref.sum())
+    ptol = (2 * dq / N_ref + dpi + TOL) if N_ref > 0 else np.inf
+    pop_ok = ptol <= REL_CAP
+    if fac > 1:
+        ctx.tag('slow-mixing gap<1e-%d' % int(np.floor(-np.log10(gap))))
     ctx.case({k: case[k] for k in ('T', 'sources', 'sinks')}, nontrivial=carries,
              tags=['kind=' + case['kind'], 'n=%d' % n, 'nsrc=%d' % len(src), 'nsnk=%d' % len(snk),
                    'ninter=%d' % min(len(inter), 4), 'argform=' + case['argform']])
@@ -123,8 +141,12 @@ def check_case(ctx, case, resp):
             # --- definition of the reactive flux
             if np.max(np.abs(np.diag(f))) != 0.0:
                 return fail('reactive flux not zero on the diagonal', failing='flux-diagonal', **where)
-            if np.max(np.abs(f - f_ref)) > TOL:
-                return fail('reactive flux differs from pi_i q-_i T_ij q+_j by %.3g' % np.max(np.abs(f - f_ref)),
+            if not flux_ok:
+                ctx.skip('flux comparisons relative to the flux scale: rounding allowance > 1 %% of the scale (gap %.0e)'
+                         % 10 ** np.floor(np.log10(gap)))
+            elif np.max(np.abs(f - f_ref)) > ftol:
+                return fail('reactive flux differs from pi_i q-_i T_ij q+_j by %.3g (flux scale %.3g, allowance %.3g)'
+                            % (np.max(np.abs(f - f_ref)), fs, ftol),
                             failing='flux-definition', got=f.tolist(), **where)
             # --- net flux is the positive part of f - f^T (of the real f), one direction per pair
             d = f - f.T
@@ -136,22 +158,29 @@ def check_case(ctx, case, resp):
                             failing='net-one-direction', got=g.tolist(), **where)
             if reversible:
                 inflow, outflow = g.sum(axis=0), g.sum(axis=1)
-                if inter and np.max(np.abs(inflow[inter] - outflow[inter])) > TOL:
+                gs = max(float(np.max(g)), fs)
+                ctol = TOL * fac * gs          # conservation only needs a small residual of the committor system
+                if inter and np.max(np.abs(inflow[inter] - outflow[inter])) > ctol:
                     return fail('net flux not conserved at an intermediate state (residual %.3g)'
                                 % np.max(np.abs(inflow[inter] - outflow[inter])),
                                 failing='conservation', got=g.tolist(), **where)
-                if np.max(np.abs(g[:, src])) > TIGHT:
+                if flux_ok and np.max(np.abs(g[:, src])) > ftol:
                     return fail('net flux flows into a source', failing='into-sources', got=g.tolist(), **where)
-                if np.max(np.abs(g[snk, :])) > TIGHT:
+                if flux_ok and np.max(np.abs(g[snk, :])) > ftol:
                     return fail('net flux flows out of a sink', failing='out-of-sinks', got=g.tolist(), **where)
-                if abs(outflow[src].sum() - inflow[snk].sum()) > TOL:
+                if abs(outflow[src].sum() - inflow[snk].sum()) > n * ctol:
                     return fail('total outflow from sources %.12g != total inflow to sinks %.12g'
                                 % (outflow[src].sum(), inflow[snk].sum()), failing='total', **where)
                 # --- reactive populations
                 if zero_norm or not model_ok:
                     ctx.skip('reactive populations: exact normaliser sum(pi q (1-q)) is 0 (no reactive intermediate state)')
+                elif not pop_ok:
+                    ctx.skip('reactive populations: rounding allowance 2 dq / sum(pi q (1-q)) > 1 % (slowly mixing chain)')
+                    if np.all(np.isfinite(rpop)) and abs(rpop.sum() - 1.0) > TOL:
+                        return fail('reactive populations sum to %.12g' % rpop.sum(), failing='pop-sum',
+                                    got=rpop.tolist(), **where)
                 else:
-                    if not np.all(np.isfinite(rpop)) or np.any(rpop < -TIGHT):
+                    if not np.all(np.isfinite(rpop)) or np.any(rpop < -ptol):
                         return fail('reactive populations not finite / negative', failing='pop-nonneg',
                                     got=rpop.tolist(), **where)
                     if abs(rpop.sum() - 1.0) > TOL:
@@ -160,17 +189,18 @@ def check_case(ctx, case, resp):
                     if np.max(np.abs(rpop[src + snk])) > TIGHT:
                         return fail('reactive populations do not vanish on sources/sinks', failing='pop-boundary',
                                     got=rpop.tolist(), **where)
-                    dens = pi * q * (1 - q)
-                    if np.max(np.abs(rpop - dens / dens.sum())) > TOL:
+                    if np.max(np.abs(rpop - dens_ref / N_ref)) > ptol:
                         return fail('reactive populations differ from pi q+ q- normalised', failing='pop-definition',
                                     got=rpop.tolist(), **where)
             if dense_out is None:
                 dense_out = (f, g, rpop)
             else:
-                if np.max(np.abs(f - dense_out[0])) > TOL or np.max(np.abs(g - dense_out[1])) > TOL:
+                dvtol = (TOL + dpi) * max(fs, float(np.max(np.abs(dense_out[0]))))
+                if np.max(np.abs(f - dense_out[0])) > dvtol or np.max(np.abs(g - dense_out[1])) > 2 * dvtol:
                     return fail('fluxes differ between ndarray/first call and %s, populations=%s' % (cont, pops),
                                 failing='dense-vs-sparse', **where)
-                if reversible and model_ok and not zero_norm and np.max(np.abs(rpop - dense_out[2])) > TOL:
+                if reversible and model_ok and not zero_norm and pop_ok \
+                        and np.max(np.abs(rpop - dense_out[2])) > TOL + 2 * dpi:
                     return fail('reactive populations differ between ndarray and %s' % cont,
                                 failing='dense-vs-sparse', **where)
     # --- model vs real
@@ -179,13 +209,15 @@ def check_case(ctx, case, resp):
         return
     f, g, rpop = dense_out
     mo = m['ok']
-    if np.max(np.abs(base.fr_mat(mo['flux']) - f)) > TOL:
+    if not flux_ok:
+        return
+    if np.max(np.abs(base.fr_mat(mo['flux']) - f)) > ftol:
         ctx.disagreement('Model Tpt.reactiveFluxes vs tpt.reactive_fluxes', dict(case, impl=f.tolist()))
         return
-    if np.max(np.abs(base.fr_mat(mo['net']) - g)) > TOL:
+    if np.max(np.abs(base.fr_mat(mo['net']) - g)) > 2 * ftol:
         ctx.disagreement('Model Tpt.netFluxes vs tpt.net_fluxes', dict(case, impl=g.tolist()))
         return
-    if not zero_norm and np.max(np.abs(base.fr_vec(mo['pop']) - rpop)) > TOL:
+    if not zero_norm and pop_ok and np.max(np.abs(base.fr_vec(mo['pop']) - rpop)) > ptol:
         ctx.disagreement('Model Tpt.reactivePopulations vs tpt.reactive_populations', dict(case, impl=rpop.tolist()))
         return
     if zero_norm:
@@ -202,7 +234,7 @@ def make_cases(ctx):
         return [CONTAINERS[rot[0] % len(CONTAINERS)]]
 
     def add(kind, T, A, B, containers, pops):
-        if kind == 'rev':
+        if kind in ('rev', 'meta-rev'):
             pi = exact_pi_reversible(T)
             assert base.is_reversible_pi(T, pi)
             pij = [base._fr(x) for x in pi]
@@ -228,6 +260,13 @@ def make_cases(ctx):
         T = base.gen_chain(rng, n, kind)
         A, B = base.random_set_pair(rng, n, need_free=1)
         add(kind, T, A, B, list(CONTAINERS) if r % 2 == 0 else one_container(), ['given', 'none'])
+    # metastable reversible chains (two/three basins, barrier weights ~10^U(-7,-4) of the in-basin weights): the
+    # stationary vector is rowsum(C)/sum(C) in closed form; the library must find it itself when populations=None
+    for r in range(ctx.n(40, 1200)):
+        T = base.gen_chain(rng, 0, 'meta-rev')
+        for _ in range(2):
+            A, B = base.random_set_pair(rng, len(T), need_free=1)
+            add('meta-rev', T, A, B, list(CONTAINERS) if r % 4 == 0 else one_container(), ['none', 'given'])
     # exact stationary vectors of the non-reversible chains from the model's certified solver
     idx = [i for i, c in enumerate(cases) if c['pi'] is None]
     resp = ctx.driver([{'op': 'C08.eq_probs', 'T': cases[i]['T']} for i in idx])
